@@ -82,6 +82,7 @@ func c17Run(c ttyCase) (*vlib.Failure, c17Stats) {
 		return vlib.Failf("invalid case: %v", err), st
 	}
 	cons := c17NewCons(c.Cons)
+	ttyOthers = nil
 	vt := NewVT(c.Tab, c.Scrollback)
 	var ref *refTerm
 	state := StateInactive
@@ -114,7 +115,7 @@ func c17Run(c ttyCase) (*vlib.Failure, c17Stats) {
 			if pc := attach(g); pc.Panicked {
 				return vlib.Failf("%s: %v", when, pc), st
 			}
-		case "b", "w", "cur", "state":
+		case "b", "w", "cur", "state", "other":
 			if op.K == "cur" && (op.X < 1 || op.Y < 1 || int64(op.X) > int64(ref.w) || int64(op.Y) > int64(ref.h)) {
 				st.curOut++
 			}
@@ -204,7 +205,7 @@ func c17Classify(c ttyCase, s c17Stats) (bool, []string) {
 // screen of W x H glyph cells plus RemW/RemH spare pixels and Pad spare bytes
 // per scanline; the reference terminal is W x H.
 func c17NewCons(spec ttyCons) *gridCons {
-	g := newGridCons(spec.W, spec.H)
+	g := newGridConsFor(spec)
 	if spec.Kind != "fbsize" {
 		return g
 	}
@@ -224,6 +225,12 @@ func c17NewCons(spec ttyCons) *gridCons {
 }
 
 func c17GenCons(t *rapid.T) ttyCons {
+	c := c17GenConsShape(t)
+	ttyGenColors(t, &c)
+	return c
+}
+
+func c17GenConsShape(t *rapid.T) ttyCons {
 	if rapid.IntRange(0, 5).Draw(t, "fbsize") == 0 {
 		return ttyCons{Kind: "fbsize", W: ttyGenDim(t, "w", 12), H: ttyGenDim(t, "h", 12),
 			Bpp:  rapid.SampledFrom([]uint8{8, 16, 24, 32}).Draw(t, "bpp"),
@@ -239,7 +246,15 @@ func c17GenCons(t *rapid.T) ttyCons {
 
 func c17GenCase(t *rapid.T) ttyCase {
 	c := ttyCase{Cons: c17GenCons(t), Scrollback: ttyGenScrollback(t), Tab: ttyGenTab(t)}
-	reattach := c17GenCons
+	reattach := func(t *rapid.T) ttyCons {
+		if rapid.IntRange(0, 2).Draw(t, "sameshape") == 0 {
+			// the same geometry again, with other default colours
+			cc := c.Cons
+			cc.Colors, cc.Fg, cc.Bg = true, uint8(rapid.IntRange(0, 15).Draw(t, "newfg")), uint8(rapid.IntRange(0, 15).Draw(t, "newbg"))
+			return cc
+		}
+		return c17GenCons(t)
+	}
 	if vlib.OpenFinding("F-C17") {
 		// known finding: a re-attached terminal writes at a stale offset
 		reattach = nil
